@@ -25,6 +25,16 @@ def reexec_deterministic():
     if os.environ.get('PYTHONHASHSEED') is None:
         env = dict(os.environ)
         env['PYTHONHASHSEED'] = '0'
+
+        # a replay file names the hash seed of the process that found it
+        if '--replay' in sys.argv[:-1]:
+            try:
+                with open(sys.argv[sys.argv.index('--replay') + 1]) as fp:
+                    env['PYTHONHASHSEED'] = str(int(
+                        json.load(fp).get('hashseed', 0)))
+            except Exception:
+                pass
+
         env['PYTHONDONTWRITEBYTECODE'] = '1'
         os.execve(sys.executable, [sys.executable] + sys.argv, env)
 
